@@ -57,7 +57,7 @@ def expandP (msg : Msg) : List Piece → Str
   | .var n _ :: r =>
     (match getLeaf msg (splitOn '.' n) with
      | some l => leafStr l
-     | none => "None".toList) ++ expandP msg r
+     | none => ['N', 'o', 'n', 'e']) ++ expandP msg r
 
 /-! ### `validate(tmpl, path)`: the regex `_generate_pattern_for_template(tmpl) + "$"`, as a matcher.
 Literal text is NOT escaped by api-core: `.` is the regex dot. (Other metacharacters: unsupported.) -/
@@ -98,7 +98,7 @@ def matchI : List PItem → Str → Bool
   | .single :: r => plusK (fun d => d != '/') (matchI r)
   | .multi :: r => plusK (fun d => d != '\n') (matchI r)
 
-def unsupportedMeta (c : Char) : Bool := "()[]|+?^$\\{}".toList.contains c
+def unsupportedMeta (c : Char) : Bool := ['(', ')', '[', ']', '|', '+', '?', '^', '$', '\\', '{', '}'].contains c
 
 def validate (ps : List Piece) (path : Str) : Bool := matchI (pieceItems ps) path
 
@@ -168,7 +168,8 @@ def renderAtom (numeric : Bool) : Atom → Str
 /-- `json_format.MessageToJson(…, use_integers_for_enums=numeric)`: lowerCamel member names -/
 def jsonLeaf (numeric : Bool) (l : Leaf) : JLeaf := ⟨l.path.map toJsonName, l.atoms.map (renderAtom numeric)⟩
 
-def altLeaf : JLeaf := ⟨["$alt".toList], ["json;enum-encoding=int".toList]⟩
+def altLeaf : JLeaf :=
+  ⟨[['$', 'a', 'l', 't']], [['j', 's', 'o', 'n', ';', 'e', 'n', 'u', 'm', '-', 'e', 'n', 'c', 'o', 'd', 'i', 'n', 'g', '=', 'i', 'n', 't']]⟩
 
 def topKeys (q : List JLeaf) : List Str := q.filterMap (fun l => l.path.head?)
 
